@@ -56,3 +56,20 @@ def handleSigmf (args : String) : String :=
   | none => "bad-op"
 
 end RR.CodecDriver
+
+namespace RR.CodecDriver
+open RR RR.Util
+
+/-- `audec <bitrate> <bytes…>` → `ok <n samples> <hash>` / `wait` / `err <kind>` -/
+def handleAuDec (args : String) : String :=
+  match nats (toks args) with
+  | some (bitrate :: bytes) =>
+    match Au.decode bitrate bytes with
+    | .ok (some samples) => s!"ok {samples.length} {hashList samples}"
+    | .ok none => "wait"
+    | .error e => "err " ++ (match e with
+        | .badMagic => "magic" | .smallOffset => "offset" | .badEncoding => "encoding"
+        | .badBitrate => "bitrate" | .badChannels => "channels")
+  | _ => "bad-op"
+
+end RR.CodecDriver
